@@ -251,7 +251,82 @@ def do_call(c, O):
         return x.simplify()
     if op == "units_simplify":
         return x.units.simplify()
+    if op in ("gufunc", "gunary", "garrfn", "gmethod"):
+        generic_call(c, x, y)
+        return None
     raise ValueError("unknown op " + op)
+
+
+GOPER = {
+    "add": operator.add, "subtract": operator.sub, "multiply": operator.mul, "true_divide": operator.truediv,
+    "floor_divide": operator.floordiv, "remainder": operator.mod, "divmod": divmod, "power": operator.pow,
+    "less": operator.lt, "less_equal": operator.le, "greater": operator.gt, "greater_equal": operator.ge,
+    "equal": operator.eq, "not_equal": operator.ne,
+}
+
+
+def generic_call(c, x, y):
+    """generic copying families of Frame.tla (frame-only): perform the call, discard the result"""
+    np = _U["np"]
+    op, f = c["op"], c["f"]
+    if op == "gufunc":
+        form = c["e"]
+        uf = getattr(np, f)
+        if form == "call":
+            uf(x, y)
+        elif form == "op":
+            GOPER[f](x, y)
+        elif form == "outer":
+            uf.outer(x, y)
+        elif form == "reduce":
+            uf.reduce(x)
+        elif form == "accumulate":
+            uf.accumulate(x)
+        else:
+            raise ValueError(form)
+    elif op == "gunary":
+        getattr(np, f)(x)
+    elif op == "gmethod":
+        if f in ("sum", "mean", "std", "var", "min", "max", "prod", "cumsum", "cumprod", "argsort", "tolist", "flatten", "to_ndarray"):
+            getattr(x, f)()
+        elif f == "round":
+            np.round(x, 1)
+        elif f in ("sort", "ptp", "diff", "median"):
+            getattr(np, f)(x)
+        elif f == "astype":
+            x.astype("float32")
+        elif f == "unit_array":
+            x.unit_array
+            x.unit_quantity
+        elif f == "str":
+            str(x)
+            repr(x)
+        else:
+            raise ValueError(f)
+    else:
+        if f in ("concatenate", "stack", "vstack", "hstack"):
+            getattr(np, f)([x, y])
+        elif f == "where":
+            np.where(np.asarray(x) > 2, x, y)
+        elif f == "select":
+            np.select([np.asarray(x) > 2], [x], default=y)
+        elif f == "clip":
+            np.clip(x, y, y)
+        elif f in ("isclose", "allclose", "array_equal", "array_equiv", "intersect1d", "union1d", "setdiff1d", "isin", "searchsorted", "append", "dot", "inner", "outer", "kron"):
+            getattr(np, f)(x, y)
+        elif f == "insert":
+            np.insert(x, 0, y)
+        elif f == "interp":
+            np.interp(y, x, x)
+        elif f == "allclose_units":
+            _U["unyt"].array.allclose_units(x, y)
+        elif f == "linspace":
+            np.linspace(x, y, 3)
+        elif f == "copyto_new":
+            np.copy(x)
+            np.array(x)
+        else:
+            raise ValueError(f)
 
 
 TWIN = {
